@@ -60,6 +60,9 @@ def main(tier='quick'):
         for mid in mids[:6]:
             plan = [('store', rng.choice([7, 9]), rng.choice(K.MIDS), 1) for _ in range(3)]
             add(K.run_get_scu(rng, mid, 1, plan, [0, 'EHE', 0xB000], pol), {'svc': 'qr_get_scu', 'mid': mid, 'plan': plan, 'policy': pol})
+            # progress responses of the retrieve interleaved with the sub-operations (they arrive on the C-GET context)
+            plan2 = [plan[0], ('pending',), plan[1], ('pending',), ('pending',), plan[2]]
+            add(K.run_get_scu(rng, mid, rng.choice([1, 3, 5]), plan2, [0, 0xB000, 'EHE'], pol), {'svc': 'qr_get_scu', 'mid': mid, 'plan': plan2, 'policy': pol})
     # a request for one find class arriving on a context negotiated for another find class: the responses repeat the
     # REQUEST's class
     for mid in mids[:4]:
